@@ -147,7 +147,7 @@ class Run:
         violations = 0
         known_hits = 0
         lines = []
-        replay_dir = ROOT / "replay"
+        replay_dir = pathlib.Path(os.environ.get("VK_REPLAY_DIR", str(ROOT / "replay")))
         for f in self.failures:
             hit = None
             for k in known:
@@ -205,8 +205,8 @@ class Run:
             "wall_s": round(wall, 2),
             "violations": violations,
         }
-        evdir = ROOT / "evidence"
-        evdir.mkdir(exist_ok=True)
+        evdir = pathlib.Path(os.environ.get("VK_EVIDENCE_DIR", str(ROOT / "evidence")))
+        evdir.mkdir(exist_ok=True, parents=True)
         (evdir / f"{self.prop}.json").write_text(json.dumps(ev, indent=1, default=str) + "\n")
 
         for ln in lines:
